@@ -160,6 +160,8 @@ class FeatureInterval(AbstractFeatureInterval):
             interval_starts = self._genomic_starts
             interval_ends = self._genomic_ends
         else:
+            if self.chunk_relative_location.is_empty:
+                raise EmptyLocationException("Cannot export chunk-relative coordinates: feature is not on the chunk")
             interval_starts, interval_ends = list(zip(*((x.start, x.end) for x in self.relative_blocks)))
 
         return dict(
